@@ -46,7 +46,7 @@ theorem C13.wdom_set_sound (wd : Ty) (e : WDom.Env) (x : Var) (hx : x < 2 ^ 64) 
   ⟨set_sound he hx hg hb, (set_spec (wd := wd) he hx).1, (set_spec (wd := wd) he hx).2.1⟩
 
 /-- `set` keeps the invariants whatever the state -/
-theorem C13.wdom_set_inv' (wd : Ty) (e : WDom.Env) (x : Var) (hx : x < 2 ^ 64) (i : WInt)
+theorem C13.wdom_set_inv_typed (wd : Ty) (e : WDom.Env) (x : Var) (hx : x < 2 ^ 64) (i : WInt)
     (he : Inv e) (ht : Typed wd e) (hi : Good (wd x) i) : Inv (e.set x i) ∧ Typed wd (e.set x i) :=
   ⟨(set_spec (wd := wd) he hx).1, (set_spec (wd := wd) he hx).2.1 ht hi⟩
 
